@@ -99,13 +99,22 @@ async fn run_scenario(sc: &Value, rng: &mut Rng) -> Value {
         c.private_key = cert_m.private_key.clone();
         c
     };
+    // "chain": the adversary's own certificate and key, with the genuine certificate as a second list entry
+    let chain = |genuine: &Certificate| {
+        let mut c = Certificate::default();
+        c.certificate = vec![cert_m.certificate[0].clone(), genuine.certificate[0].clone()];
+        c.private_key = cert_m.private_key.clone();
+        c
+    };
     let held_c = match sc["idC"].as_str() {
         Some("certM") => cert_m.clone(),
+        Some("chain") => chain(&cert_c),
         Some("stolen") => stolen(&cert_c),
         _ => cert_c.clone(),
     };
     let held_s = match sc["idS"].as_str() {
         Some("certM") => cert_m.clone(),
+        Some("chain") => chain(&cert_s),
         Some("stolen") => stolen(&cert_s),
         _ => cert_s.clone(),
     };
